@@ -2,6 +2,7 @@
   C11 — stateless pipelines are record-local: out(A·B) = out(A)·out(B).
   Corollaries of the pipeline refinement (C03).  Helper lemmas: `Jawk/Lemmas/PipelineSpec.lean`.
 -/
+import Jawk.Lemmas.Fixpoint
 import Jawk.Lemmas.PipelineSpec
 namespace Jawk.C11
 open Jawk Pipe
@@ -50,5 +51,24 @@ theorem concat_hom_bytes (orc : Oracles) (sink : SinkCfg) (n : Nat) (cfgs : List
 /-! ### non-vacuity -/
 example : ∀ c ∈ [StageCfg.split (.extract 0 []), .filter (.extract 0 [Jawk.Step.key "k".toList]),
     .select "x".toList (.extract 0 [])], StageCfg.stateless c = true := by simp [StageCfg.stateless]
+
+
+/-! ### whole runs, as bytes (helper file `Jawk/Lemmas/Fixpoint.lean`) -/
+
+/-- MAIN: for a configuration whose chain is stateless and whose expressions read neither line/column nor
+ordinals (`chainNoOrd`, a decidable syntactic check; `&file-name` is allowed), JSON output: the standard output
+for the concatenated input `A ++ B` is the output for `A` followed by the output for `B` — `A`, `B` any streams
+of values (in any of jawk's spellings, with or without noise in the gaps) separated by white space -/
+theorem concat_hom_run (orc : Oracles) (c : Cfg) (p : Pipeline) (hpol : c.onError = .ignore)
+    (hb : build orc c = .ok p) (hst : ∀ s ∈ p.cfgs, StageCfg.stateless s = true)
+    (hno : Fix.chainNoOrd p.cfgs = true) (hna : NoAbort orc p.cfgs)
+    (hjson : ∃ jo sep, p.sink = .json jo sep)
+    (o : JsonOpts) (gA : Noise.Gap) (itemsA : List (JV × Noise.Gap)) (gB : Noise.Gap) (itemsB : List (JV × Noise.Gap))
+    (hA0 : gA.OK) (hA : Noise.ItemsOK o itemsA) (hB0 : gB.OK) (hB : Noise.ItemsOK o itemsB)
+    (hsep : gB.ws ≠ [] ∨ Fix.EndsWs itemsA) (name : Option Str) :
+    (run orc c [⟨name, cleanInput (Noise.stream o gA itemsA ++ Noise.stream o gB itemsB)⟩] {} {}).stdout
+      = (run orc c [⟨name, cleanInput (Noise.stream o gA itemsA)⟩] {} {}).stdout
+        ++ (run orc c [⟨name, cleanInput (Noise.stream o gB itemsB)⟩] {} {}).stdout :=
+  Fix.concat_hom_run orc c p hpol hb hst hno hna hjson o gA itemsA gB itemsB hA0 hA hB0 hB hsep name
 
 end Jawk.C11
